@@ -60,6 +60,7 @@ func stripSpaces(s string) string { return strings.ReplaceAll(s, " ", "") }
 
 // hmapClassifier abstracts statements of one method into events.
 type hmapClassifier struct {
+	ptrAlias map[types.Object]ast.Expr // locals abbreviating a pointer field of the receiver
 	depth int // hashExprKind: how many caller hops were followed
 	resolveCall func(call *ast.CallExpr) ast.Expr // value of a same-receiver selector helper under the mode being specialised
 	fi   *core.FuncInfo
@@ -111,6 +112,54 @@ func isFreshEntry(info *types.Info, e ast.Expr) bool {
 }
 
 func (c *hmapClassifier) norm(e ast.Expr) string {
+	// a local that only abbreviates a pointer field of the receiver (head := this.header) reads as the field
+	if c.ptrAlias == nil {
+		c.ptrAlias = map[types.Object]ast.Expr{}
+		count := map[types.Object]int{}
+		for _, body := range append([]*ast.BlockStmt{c.fi.Decl.Body}, c.bodies...) {
+			ast.Inspect(body, func(n ast.Node) bool {
+				switch as := n.(type) {
+				case *ast.AssignStmt:
+					for i, l := range as.Lhs {
+						id, ok := l.(*ast.Ident)
+						if !ok {
+							continue
+						}
+						obj := c.info.ObjectOf(id)
+						count[obj]++
+						if len(as.Lhs) == len(as.Rhs) {
+							if sel, ok := ast.Unparen(as.Rhs[i]).(*ast.SelectorExpr); ok {
+								if rid, ok := ast.Unparen(sel.X).(*ast.Ident); ok && rid.Name == c.recv {
+									if _, isPtr := c.info.TypeOf(sel).(*types.Pointer); isPtr {
+										c.ptrAlias[obj] = sel
+									}
+								}
+							}
+						}
+					}
+				case *ast.IncDecStmt:
+					if id, ok := as.X.(*ast.Ident); ok {
+						count[c.info.ObjectOf(id)] += 2
+					}
+				}
+				return true
+			})
+		}
+		for o := range c.ptrAlias {
+			if count[o] != 1 {
+				delete(c.ptrAlias, o)
+			}
+		}
+	}
+	if len(c.ptrAlias) > 0 {
+		repl := map[types.Object]ast.Expr{}
+		for o, x := range c.ptrAlias {
+			repl[o] = x
+		}
+		if ne, ok := paths.Subst(c.info, e, repl).(ast.Expr); ok {
+			e = ne
+		}
+	}
 	s := stripSpaces(types.ExprString(e))
 	s = strings.ReplaceAll(s, c.recv+".", "")
 	return s
@@ -263,10 +312,10 @@ func (c *hmapClassifier) classify(n ast.Node) []paths.Event {
 			if strings.HasSuffix(ls, ".value") || strings.HasSuffix(ls, ".Value") {
 				out = append(out, paths.Event{Kind: "SETVAL", Arg: v.Tok.String(), Pos: v.Pos()})
 			}
-			if ls == "tab" && c.norm(rr) == "table" {
+			if _, isLocal := ast.Unparen(l).(*ast.Ident); isLocal && c.norm(rr) == "table" {
 				out = append(out, paths.Event{Kind: "RELOAD", Pos: v.Pos()})
 			}
-			if ls == "index" && strings.Contains(c.norm(rr), "%") {
+			if _, isLocal := ast.Unparen(l).(*ast.Ident); isLocal && strings.Contains(c.norm(rr), "%") && strings.Contains(c.norm(rr), "len(") {
 				out = append(out, paths.Event{Kind: "REINDEX", Arg: c.norm(rr), Pos: v.Pos()})
 			}
 		}
